@@ -259,3 +259,60 @@ def run_forwarding(repo, task):
     if n < 4:
         rep['detail'] = f'only {n} forwarding functions found: the generator no longer matches the source layout'
     return rep
+
+
+def run_operator_wiring(repo, task):
+    """C06 site obligations read off the AST (G8): every operator dunder of ContainerOperand hands `operator_mod.__X__` of ITS OWN name to
+    `_ufunc_binary_operator` together with `other`; every reflected dunder `__rX__` builds `lambda rhs, lhs: operator_mod.__X__(lhs, rhs)`
+    (operands swapped, same X) -- so that  other op container  computes op(other_cell, container_cell)."""
+    import ast
+    t0 = time.time()
+    items, failures = [], []
+
+    def ob(name, ok, note, fn):
+        items.append(dict(name=name, fn=fn, kind='G8', verdict='proved' if ok else 'refuted', backend='ast', ms=0.0, note=note))
+        if not ok:
+            failures.append(dict(key=f'G:{name}', what=f'{name}: {note}', nofail=True, replay=dict(site=name, note=note)))
+    tree = ast.parse(open(os.path.join(repo, 'static_frame/core/container.py')).read())
+    cls = next((n for n in tree.body if isinstance(n, ast.ClassDef) and n.name == 'ContainerOperand'), None)
+    BIN = ['add', 'sub', 'mul', 'matmul', 'truediv', 'floordiv', 'mod', 'pow', 'lshift', 'rshift', 'and', 'xor', 'or', 'lt', 'le', 'eq', 'ne', 'gt', 'ge']
+    REFL = ['add', 'sub', 'mul', 'matmul', 'truediv', 'floordiv']
+    fns = {n.name: n for n in cls.body if isinstance(n, ast.FunctionDef)} if cls else {}
+    n = 0
+    for x in BIN:
+        fn = fns.get(f'__{x}__')
+        if fn is None:
+            continue
+        n += 1
+        q = f'container.py:ContainerOperand.__{x}__'
+        calls = [c for c in ast.walk(fn) if isinstance(c, ast.Call) and isinstance(c.func, ast.Attribute) and c.func.attr == '_ufunc_binary_operator']
+        ok = len(calls) == 1
+        opv = oth = None
+        if ok:
+            kws = {k.arg: ast.unparse(k.value) for k in calls[0].keywords}
+            opv, oth = kws.get('operator'), kws.get('other')
+        ob(f'{q}:operator', ok and opv == f'operator_mod.__{x}__', f'operator={opv}', q)
+        ob(f'{q}:other', ok and oth == 'other', f'other={oth}', q)
+    for x in REFL:
+        fn = fns.get(f'__r{x}__')
+        if fn is None:
+            continue
+        n += 1
+        q = f'container.py:ContainerOperand.__r{x}__'
+        lam = next((s.value for s in fn.body if isinstance(s, ast.Assign) and isinstance(s.value, ast.Lambda)), None)
+        ok, note = False, 'no lambda'
+        if lam is not None:
+            a = [p.arg for p in lam.args.args]
+            b = lam.body
+            ok = (len(a) == 2 and isinstance(b, ast.Call) and ast.unparse(b.func) == f'operator_mod.__{x}__' and len(b.args) == 2
+                  and all(isinstance(v, ast.Name) for v in b.args) and [v.id for v in b.args] == [a[1], a[0]])
+            note = ast.unparse(lam)
+        ob(f'{q}:swapped-operands', ok, note, q)
+        calls = [c for c in ast.walk(fn) if isinstance(c, ast.Call) and isinstance(c.func, ast.Attribute) and c.func.attr == '_ufunc_binary_operator']
+        kws = {k.arg: ast.unparse(k.value) for k in calls[0].keywords} if len(calls) == 1 else {}
+        ob(f'{q}:passes-lambda-and-other', kws.get('operator') == 'operator' and kws.get('other') == 'other', f'{kws}', q)
+    rep = dict(name=task['name'], status='ok' if n >= 20 else 'checker-fault', items=items, failures=failures, evaluations=0, distinct=0, rule='',
+               samples=[dict(obligation=i['name'], verdict=i['verdict']) for i in items[:3]], trusted=[], assumptions=[], wall_s=round(time.time() - t0, 2))
+    if n < 20:
+        rep['detail'] = f'only {n} operator dunders found in ContainerOperand'
+    return rep
